@@ -29,6 +29,15 @@ for pid in args:
         meta = {"property": pid, "origin": "independent sub-agent given only the property text and a scratch worktree",
                 "needs_to_manifest": notes.strip()[:1500],
                 "ran": "harness/seeded_eval.py: demo on clean/patched worktree, existing suite on patched worktree, ./check <property> quick from a scratch copy of /verif with NXS_REPO=<patched worktree>"}
+        old = os.path.join(dst, "meta.json")
+        if os.path.exists(old):
+            # a re-import (another wave in the same root) keeps what an earlier evaluation recorded
+            try:
+                prev = json.load(open(old))
+                if "evaluation" in prev:
+                    meta["evaluation"] = prev["evaluation"]
+            except Exception:  # noqa: BLE001
+                pass
         with open(os.path.join(dst, "meta.json"), "w") as f:
             json.dump(meta, f, indent=1)
         print("imported", name)
